@@ -11,7 +11,7 @@ RULE = ("every string up to the length bound over alphabets of 1..4 letters (and
         "find_neighbor_pairs_index, calculate_neighbor_numbers, isdist1; nndist_hamming over all 4-letter strings x all reference subsets; "
         "non-trivial = non-empty expected neighbourhood")
 ASSUMPTIONS = ["alphabets of more than 4 letters only through the default 20-letter alphabet on short strings"]
-REQUIRED_CLASSES = {"all": ["empty-string", "homopolymer", "repeated-run", "letter-outside-alphabet", "position-subset", "default-20-letter-alphabet", "nndist-cutoff", "mixed-length-reference", "more-than-255-neighbours"]}
+REQUIRED_CLASSES = {"all": ["empty-string", "homopolymer", "repeated-run", "letter-outside-alphabet", "position-subset", "default-20-letter-alphabet", "nndist-cutoff", "mixed-length-reference", "more-than-255-neighbours", "one-shot-iterator-positions"]}
 MIN_OUTCOMES = 10
 AA = "ACDEFGHIKLMNPQRSTVWY"
 
@@ -88,10 +88,14 @@ def check_case(case, acc):
         acc.ok(("lev", len(r)), nontrivial=bool(exp))
         # hamming_neighbors for every subset of positions
         if len(x) <= 4 and all(c in alpha for c in x) or len(x) <= 3:
-            for pos in [None] + [list(p) for p in E.subsets(range(len(x)))]:
+            for pos0 in [None] + [list(p) for p in E.subsets(range(len(x)))] + [("iter", p) for p in E.subsets(range(len(x)), 1)]:
+                pos = pos0
+                if isinstance(pos0, tuple) and pos0 and pos0[0] == "iter":
+                    pos = list(pos0[1])         # positions handed over as a one-shot iterator ("iterable of positions")
+                    acc.cls("one-shot-iterator-positions")
                 if pos is not None:
                     acc.cls("position-subset")
-                kw = {} if pos is None else {"variable_positions": pos}
+                kw = {} if pos is None else {"variable_positions": (iter(pos) if pos0 is not pos else pos)}
                 r = acc.call(lambda: list(pyrepseq.hamming_neighbors(x, alpha, **kw)))
                 exp = naive_one_sub(x, alpha, pos)
                 if raised(r) or len(r) != len(set(r)) or set(r) != exp:
@@ -142,10 +146,23 @@ def check_case(case, acc):
             acc.ok(("fnp", nb, len(exp_pairs)), nontrivial=bool(exp_pairs))
             # also as a list in reversed order and as a set
             for variant in (seqs[::-1], set(seqs)):
+                before = sorted(variant) if isinstance(variant, set) else list(variant)
                 r = acc.call(pyrepseq.find_neighbor_pairs, variant, f)
                 if raised(r) or len(r) != len(exp_pairs) or {frozenset(p) for p in r} != exp_pairs:
                     acc.fail("find_neighbor_pairs/%s/order-or-container" % nb, case, sorted(map(sorted, exp_pairs)), r)
                     return
+                after = sorted(variant) if isinstance(variant, set) else list(variant)
+                if after != before:
+                    acc.fail("find_neighbor_pairs/%s/caller-collection-modified" % nb, case, before, after)
+                    return
+                # the same collection object used again by the other utilities
+                if isinstance(variant, set):
+                    r2 = acc.call(pyrepseq.find_neighbor_pairs, variant, f)
+                    n2 = acc.call(pyrepseq.calculate_neighbor_numbers, seqs, reference=variant, neighborhood=f)
+                    e_n = [sum(1 for b in set(seqs) if dist(a, b) == 1) for a in seqs]
+                    if raised(r2) or {frozenset(p) for p in r2} != exp_pairs or raised(n2) or list(n2) != e_n:
+                        acc.fail("find_neighbor_pairs/%s/second-use-of-the-same-set" % nb, case, {"pairs": sorted(map(sorted, exp_pairs)), "numbers": e_n}, {"pairs": r2, "numbers": n2})
+                        return
                 acc.ok()
             exp_idx = {(i, j) for i in range(len(seqs)) for j in range(len(seqs)) if i != j and dist(seqs[i], seqs[j]) == 1}
             r = acc.call(pyrepseq.find_neighbor_pairs_index, seqs, f)
